@@ -46,7 +46,9 @@ class Poly:
         if isinstance(c, float):
             if c != c or c in (float("inf"), float("-inf")):
                 return Poly.atom(("const", repr(c)))
-            c = Fraction(c).limit_denominator(10**12) if abs(c) < 1e12 else Fraction(c)
+            exact = Fraction(c)
+            short = exact.limit_denominator(10**12) if abs(c) < 1e12 else exact
+            c = short if float(short) == c else exact
         return Poly({(): Fraction(c)})
 
     @staticmethod
@@ -319,9 +321,6 @@ def g_not(g):
         return TRUE
     if g[0] == "not":
         return g[1]
-    if g[0] == "cmp" and g[1] in _NEG and g[1] not in ("==",):
-        # canonical forms keep '==', '<', '<=' only
-        return g_cmp(_NEG[g[1]], g[2], g[3], keys=True)
     return ("not", g)
 
 
@@ -342,8 +341,14 @@ def g_cmp(op, a, b, keys=False):
         return g_not(g_cmp("is", ka, kb, keys=True))
     if op == "not in":
         return g_not(("cmp", "in", ka, kb))
-    if op in (">", ">="):
-        op, ka, kb = _FLIP[op], kb, ka
+    # canonical comparison atoms are '==', '<' and 'in' only; the others are their negations /
+    # mirror images, so that a test and its complement never get independent truth values
+    if op == ">":
+        op, ka, kb = "<", kb, ka
+    elif op == "<=":
+        return g_not(g_cmp("<", kb, ka, keys=True))
+    elif op == ">=":
+        return g_not(g_cmp("<", ka, kb, keys=True))
     if op in ("==", "is") and _k(ka) > _k(kb):
         ka, kb = kb, ka
     if op == "is":
@@ -433,6 +438,53 @@ def truth_of(v):
         if a is not None and a[0] == "const":
             return {"True": TRUE, "False": FALSE, "None": FALSE}.get(a[1], ("truth", v.key()))
     return ("truth", vkey(v))
+
+
+def ordering(g):
+    """View an ordering guard as ("cmp", "<" | "<=", lo, hi): the canonical atoms are '<' and its
+    negation, so `not (b < a)` is presented as `a <= b`.  Other guards are returned unchanged."""
+    if isinstance(g, tuple) and g and g[0] == "not" and isinstance(g[1], tuple) and g[1][0] == "cmp" and g[1][1] == "<":
+        return ("cmp", "<=", g[1][3], g[1][2])
+    return g
+
+
+def known_truth(g, guards):
+    """Simplify guard `g` given the guards already assumed on this path (prunes paths that assume a
+    test and its complement)."""
+    if g in (TRUE, FALSE):
+        return g
+    if g in guards:
+        return TRUE
+    if g_not(g) in guards:
+        return FALSE
+    if g[0] == "not":
+        inner = known_truth(g[1], guards)
+        return g_not(inner) if inner in (TRUE, FALSE) else g
+    if g[0] == "or":
+        parts = [known_truth(x, guards) for x in g[1]]
+        if TRUE in parts:
+            return TRUE
+        if all(p == FALSE for p in parts):
+            return FALSE
+        return g_or(parts)
+    if g[0] == "and":
+        parts = [known_truth(x, guards) for x in g[1]]
+        if FALSE in parts:
+            return FALSE
+        if all(p == TRUE for p in parts):
+            return TRUE
+        return g_and(parts)
+    # a conjunction assumed earlier makes each of its members known
+    for h in guards:
+        if h[0] == "and" and g in h[1]:
+            return TRUE
+        if h[0] == "and" and g_not(g) in h[1]:
+            return FALSE
+        if h[0] == "not" and h[1][0] == "or" and g in h[1][1]:
+            return FALSE
+        if h[0] == "not" and h[1][0] == "or" and g_not(g) in h[1][1]:
+            return TRUE
+    return g
 
 
 def make_cond(alts):
@@ -705,7 +757,7 @@ class Frame:
         if isinstance(s, ast.Continue):
             return [(st, ("continue",))]
         if isinstance(s, ast.If):
-            g = truth_of(self.eval(s.test, st))
+            g = known_truth(truth_of(self.eval(s.test, st)), st.guards)
             outs = []
             if g != FALSE:
                 outs.extend(self.exec_block(s.body, st.fork(g) if g != TRUE else State(st.env, st.guards)))
@@ -752,8 +804,20 @@ class Frame:
     def _exec_for_body(self, s, st, elems):
         cur = st
         for e in elems:
+            skip = None
+            if _maybe_absent(e):
+                # an element that exists on some paths only: the body runs under its presence guard
+                gp, e = split_presence(e)
+                gp = known_truth(gp, cur.guards)
+                if gp == FALSE:
+                    continue
+                if gp != TRUE:
+                    skip = cur.fork(g_not(gp))
+                    cur = cur.fork(gp)
             self.assign(s.target, e, cur)
             outs = self.exec_block(s.body, cur)
+            if skip is not None:
+                outs = list(outs) + [(skip, ("fall",))]
             cont = []
             for st2, oc in outs:
                 if oc[0] in ("fall", "continue"):
@@ -993,7 +1057,7 @@ class Frame:
                      b if not isinstance(b, (str, bool)) and b is not None else as_term(b))
 
     def e_IfExp(self, e, st):
-        g = truth_of(self.eval(e.test, st))
+        g = known_truth(truth_of(self.eval(e.test, st)), st.guards)
         if g == TRUE:
             return self.eval(e.body, st)
         if g == FALSE:
@@ -1077,8 +1141,12 @@ class Frame:
                 doms.append(vkey(it))
             for el in self.domain_elements(it, gen.iter):
                 s2 = State(cur.env, cur.guards)
+                present = TRUE
+                if _maybe_absent(el):
+                    present, el = split_presence(el)
+                    present = known_truth(present, s2.guards)
                 self.assign(gen.target, el, s2)
-                conds = [truth_of(self.eval(c, s2)) for c in gen.ifs]
+                conds = [present] + [truth_of(self.eval(c, s2)) for c in gen.ifs]
                 g = g_and(conds)
                 if g == FALSE:
                     continue
@@ -1481,6 +1549,22 @@ def _absent_to_zero(v):
     return t
 
 
+def split_presence(v):
+    """(guard under which a possibly filtered-out list element is present, its value when present)."""
+    a = as_term(v).as_atom()
+    absent = Poly.atom(("absent",)).key()
+    if a == ("absent",):
+        return FALSE, v
+    earlier, pres, alts = [], [], []
+    for g, val in a[1]:
+        eff = g_and([g_not(x) for x in earlier] + [g])
+        if val != absent:
+            pres.append(eff)
+            alts.append((g, poly_from_key(val) if _is_polykey(val) else Poly.atom(("val", val))))
+        earlier.append(g)
+    return g_or(pres), make_cond(_close(alts))
+
+
 def _maybe_absent(v):
     a = as_term(v).as_atom() if not isinstance(v, (AList, ATuple, ADict)) else None
     if a == ("absent",):
@@ -1529,10 +1613,14 @@ def _dotted(e):
 class Valuation:
     """Pseudo-random valuation of atoms and truth assignment of guards for one trial."""
 
-    def __init__(self, trial, salt="pcstatic"):
+    def __init__(self, trial, salt="pcstatic", base=None):
         self.trial = trial
         self.salt = salt
         self.cache = {}
+        # guard truths are decided by `base` (the first attempt's valuation of the same trial), so that
+        # a retry with fresh atom values explores the same guard scenario
+        self.base = base
+        self.tcache = {}
 
     def _h(self, key, salted=True):
         d = hashlib.blake2b(((self.salt if salted else "") + "|%d|" % self.trial + repr(key)).encode(), digest_size=8).digest()
@@ -1553,9 +1641,19 @@ class Valuation:
             return all(self.truth(x) for x in g[1])
         if t == "or":
             return any(self.truth(x) for x in g[1])
-        # the truth assignment depends on the trial only (not on the value salt), so that a retry
-        # with fresh atom values explores the same guard scenario
-        return self._h(("guard", g), salted=False) < 0.5
+        if self.base is not None:
+            return self.base.truth(g)
+        if g in self.tcache:
+            return self.tcache[g]
+        # congruent truth assignment: a test is identified by the *images* of its operands, so that
+        # two differently written but equal tests get the same truth value
+        try:
+            img = (g[0],) + tuple(x if isinstance(x, str) else self.image(x) for x in g[1:])
+        except (ValueError, OverflowError, ZeroDivisionError):
+            img = g
+        r = self._h(("guard", img), salted=False) < 0.5
+        self.tcache[g] = r
+        return r
 
     def image(self, k):
         """Numeric image of a key: makes uninterpreted atoms congruent (equal arguments, however
@@ -1568,7 +1666,9 @@ class Valuation:
                     return k
                 if k[0] in ("cmp", "not", "and", "or", "truth"):
                     return self.truth(k)
-                if k[0] in ("tuple", "list", "dict", "slice", "val"):
+                if k[0] == "list":
+                    return ("list", tuple(self.image(x) for x in k[1] if not self.is_absent_key(x)))
+                if k[0] in ("tuple", "dict", "slice", "val"):
                     return (k[0],) + tuple(self.image(x) for x in k[1:])
                 return _round(self.atom(k))
             return tuple(self.image(x) for x in k)
@@ -1591,7 +1691,12 @@ class Valuation:
     def value_of_key(self, k):
         if _is_polykey(k):
             return self.poly(k)
-        return self.rand(k)
+        # containers and other structured keys: a value determined by their image (so that two
+        # differently written but equal lists denote the same number)
+        img = self.image(k)
+        if isinstance(img, float):
+            return img
+        return self.rand(img)
 
     def atom(self, a):
         t = a[0]
@@ -1629,11 +1734,30 @@ class Valuation:
         self.cache[a] = r
         return r
 
+    def is_absent_key(self, k):
+        """Does key `k` denote, under this valuation, a filtered-out list element?"""
+        a = key_atom(k) if isinstance(k, tuple) else None
+        while a is not None and a[0] == "cond":
+            nxt = None
+            for g, val in a[1]:
+                if self.truth(g):
+                    nxt = val
+                    break
+            if nxt is None:
+                return False
+            a = key_atom(nxt)
+        return a == ("absent",)
+
     def value(self, v):
         """Numeric image of an abstract value (containers map to tuples of images)."""
         if isinstance(v, Poly):
+            if self.is_absent_key(v.key()):
+                return "ABSENT"
             return self.poly(v)
-        if isinstance(v, (ATuple, AList)):
+        if isinstance(v, AList):
+            # a list is compared as the sequence of its *present* elements
+            return tuple(x for x in (self.value(i) for i in v.items) if x != "ABSENT")
+        if isinstance(v, ATuple):
             return tuple(self.value(i) for i in v.items)
         if isinstance(v, ADict):
             return tuple(sorted(((_k(k), self.value(x[1])) for k, x in v.items.items())))
@@ -1662,7 +1786,7 @@ def equivalent(a, b, trials=TRIALS):
         verdicts = []
         wit = None
         for attempt in range(8):
-            val = Valuation(t, salt="s%d" % attempt)
+            val = Valuation(t, salt="s%d" % attempt, base=None if attempt == 0 else Valuation(t, salt="s0"))
             try:
                 va, vb = val.value(a), val.value(b)
             except (ValueError, OverflowError, ZeroDivisionError):
